@@ -256,6 +256,91 @@ fn sixty_months(y: i64, log: &mut Log) {
   }
 }
 
+/// one history operation on civil day n: the list of one of the containers the day lies in
+fn history_op(n: i64, rng: &mut Rng) -> (String, Vec<String>, u64) {
+  let c = cal();
+  let t = terms();
+  let seq = lunar_seq();
+  let (y, m, _) = c.date(n);
+  let name = cal::fmt_dn(n);
+  let mut bad = vec![];
+  match rng.below(5) {
+    0 => {
+      let label = format!("civil-month({:04}-{:02})", y, m);
+      let mi = ((y - 1) * 12 + m - 1) as usize;
+      let (first, next) = (c.month_first[mi], c.month_first[mi + 1]);
+      let got: Vec<Option<i64>> = SolarMonth::from_ym(y as isize, m as usize).get_days().iter().map(dn_of).collect();
+      let want: Vec<Option<i64>> = (first..next).map(Some).collect();
+      if got != want {
+        bad.push(format!("{} days {:?}..{:?}, expected {} days {}..{}", got.len(), got.first().and_then(|x| x.map(cal::fmt_dn)), got.last().and_then(|x| x.map(cal::fmt_dn)), want.len(), cal::fmt_dn(first), cal::fmt_dn(next - 1)));
+      }
+      (label, bad, 1)
+    }
+    1 => {
+      let k = seq.months.partition_point(|lm| lm.first <= n);
+      if k == 0 || cal::reform_era_near(n) || cal::reform_era_near(n + 40) {
+        return (format!("skip({})", name), bad, 0);
+      }
+      let lm = seq.months[k - 1];
+      if n >= lm.first + lm.days || lm.first < FIRST || lm.first + lm.days > LAST || [8i64, 9, 23, 24, 25, 239, 240].contains(&lm.y) {
+        return (format!("skip({})", name), bad, 0);
+      }
+      let label = format!("lunar-month({})", fmt_lym(lm.y, lm.m));
+      let days = LunarMonth::from_ym(lm.y as isize, lm.m as isize).get_days();
+      let got: Vec<(Lymd, Option<i64>)> = days.iter().map(|d| (lymd(d), dn_of(&d.get_solar_day()))).collect();
+      let want: Vec<(Lymd, Option<i64>)> = (1..=lm.days).map(|d| ((lm.y, lm.m, d), Some(lm.first + d - 1))).collect();
+      if got != want {
+        bad.push(format!("{} days, first {:?}, last {:?}; expected {} days from {}", got.len(), got.first(), got.last(), want.len(), cal::fmt_dn(lm.first)));
+      }
+      (label, bad, 1)
+    }
+    2 => {
+      // the sexagenary month the day lies in: from its Jie day to the day before the next
+      let gi = match t.governing_day(n) {
+        Some(g) => g,
+        None => return (format!("skip({})", name), bad, 0),
+      };
+      let ai = if t.v[gi].i % 2 == 1 { gi } else { gi - 1 };
+      if ai + 2 >= t.v.len() || ai < 24 {
+        return (format!("skip({})", name), bad, 0);
+      }
+      let (a, b) = (t.v[ai], t.v[ai + 2]);
+      let (sy, k) = crate::model::pillars::year_month_of(&a);
+      if a.dn < FIRST + 10 || b.dn > LAST - 2 || sy < 2 || sy > 9997 {
+        return (format!("skip({})", name), bad, 0);
+      }
+      let label = format!("sixty-month({}, {})", sy, k);
+      let got: Vec<Option<i64>> = SixtyCycleMonth::from_index(sy as isize, k as isize).get_days().iter().map(|d| dn_of(&d.get_solar_day())).collect();
+      let want: Vec<Option<i64>> = (a.dn..b.dn).map(Some).collect();
+      if got != want {
+        bad.push(format!("{} days {:?}..{:?}, expected {} days {}..{}", got.len(), got.first().and_then(|x| x.map(cal::fmt_dn)), got.last().and_then(|x| x.map(cal::fmt_dn)), want.len(), cal::fmt_dn(a.dn), cal::fmt_dn(b.dn - 1)));
+      }
+      (label, bad, 1)
+    }
+    3 => {
+      let label = format!("civil-year({:04})", y);
+      let sy = SolarYear::from_year(y as isize);
+      let ms = sy.get_months();
+      let got = (ms.len(), ms.iter().map(|x| x.get_day_count() as i64).sum::<i64>(), sy.get_day_count() as i64, sd_of_dn(n).get_index_in_year() as i64);
+      let want = (12usize, cal::ydays(y), cal::ydays(y), n - c.year_first(y));
+      if got != want {
+        bad.push(format!("{:?}, expected {:?} (months, sum of month lengths, year length, day of year)", got, want));
+      }
+      (label, bad, 1)
+    }
+    _ => {
+      let ly = (y - rng.range(0, 1)).max(0);
+      let label = format!("lunar-year({})", ly);
+      let got: Vec<(i64, i64)> = LunarYear::from_year(ly as isize).get_months().iter().map(lym).collect();
+      let want: Vec<(i64, i64)> = seq.year_slice(ly).iter().map(|x| (x.y, x.m)).collect();
+      if got != want {
+        bad.push(format!("{:?}, expected {:?}", got, want));
+      }
+      (label, bad, 1)
+    }
+  }
+}
+
 pub fn run(cfg: &Cfg) -> (Log, Meta) {
   crate::util::set_thread_cap(10);
   let mut log = Log::new();
@@ -285,6 +370,9 @@ pub fn run(cfg: &Cfg) -> (Log, Meta) {
       Tier::Quick => (2..=9997).filter(|y| y % 20 == (cfg.seed % 20) as i64 || *y <= 12 || (1580..=1584).contains(y)).collect(),
     };
     log.merge(par_range(syears.len(), 2, |i, l| sixty_months(syears[i], l)));
+    let nh = cfg.tier.pick(15_000usize, 250_000usize);
+    log.merge(par_range(nh, 50, |i, l| crate::history::day_walk("C13", "a sequence of container lists on related days on one thread", i, cfg.seed, FIRST + 40, LAST - 40, l, history_op)));
+    log.floor("history.answers_judged", cfg.tier.pick(100_000, 2_000_000));
     log.floor("sixty.months_listed", cfg.tier.pick(3_000, 100_000));
     log.floor("hours.days_sampled", cfg.tier.pick(1_000, 100_000));
   }
@@ -293,13 +381,15 @@ pub fn run(cfg: &Cfg) -> (Log, Meta) {
   log.floor("lunar.months_listed", cfg.tier.pick(10_000, 120_000));
   let meta = Meta {
     rule: format!(
-      "civil containers exhaustive (every year 1..9999: 2 halves, 4 seasons, 12 months nested; every month's day list = the existing dates in order, length = day count, day-of-year = position in the concatenation, year length = sum); lunar: month list and day list (labels 1..n and consecutive civil days) of every month of {} lunar years; hour lists (13 lunar-day slots, 12 sexagenary-day slots with roll-over at 23:00 and Five-Rats hour pillars) on {} seeded-random days (1/10 around the 1582 cut-over); day lists of the 12 sexagenary months of {} years against Jie days. Non-trivial = leap years, October 1582, leap lunar months, sexagenary months, distinct sampled days.",
+      "civil containers exhaustive (every year 1..9999: 2 halves, 4 seasons, 12 months nested; every month's day list = the existing dates in order, length = day count, day-of-year = position in the concatenation, year length = sum); lunar: month list and day list (labels 1..n and consecutive civil days) of every month of {} lunar years; hour lists (13 lunar-day slots, 12 sexagenary-day slots with roll-over at 23:00 and Five-Rats hour pillars) on {} seeded-random days (1/10 around the 1582 cut-over); day lists of the 12 sexagenary months of {} years against Jie days; histories: {} seeded single-thread sequences of 6..16 lists (the civil month, lunar month and sexagenary month a day lies in, the civil year's months and lengths with the day of year, the lunar year's month list) on related days - {}. Non-trivial = leap years, October 1582, leap lunar months, sexagenary months, distinct sampled days.",
       lyears.len(),
       cfg.tier.pick(2_000, 200_000),
       match cfg.tier {
         Tier::Thorough => 9996,
         Tier::Quick => 520,
-      }
+      },
+      cfg.tier.pick(15_000, 250_000),
+      crate::history::WALK_TEXT
     ),
     assumptions: vec!["term days from the library (C06); lunar month sequence as observed (C03)".into()],
     exhaustive: false,
